@@ -96,4 +96,23 @@ PartitionOK(lp) ==
 \* predicted profile: for each block its count in count mode (set mode: 1 iff count > 0)
 Profile(lp, st) == [j \in 1..Len(Blocks(lp)) |->
                       [first |-> Blocks(lp)[j].first, n |-> Blocks(lp)[j].n, count |-> Lookup(st.cnt, Blocks(lp)[j].first, 0)]]
+\* ---------------------------------------------------------------- the profile FILE over several runs
+\* The file named by -coverprofile is a value of its own: absent, or a sequence of lines.  A run with coverage
+\* writes "mode: M" followed by its block lines when the file is absent or -coverappend is off (whatever the file
+\* held before is gone: the new file is exactly header + blocks, also when the old one was longer), and adds only
+\* its block lines at the end when the file exists and -coverappend is on.
+NoFile == [ex |-> FALSE, lines |-> <<>>]
+WriteProfileFile(file, mode, body, append) ==
+  IF file.ex /\ append THEN [ex |-> TRUE, lines |-> file.lines \o body]
+  ELSE [ex |-> TRUE, lines |-> <<"mode: " \o mode>> \o body]
+\* what the harness drives: a history of runs of the same program on one path
+RECURSIVE ProfileFileAfter(_, _, _, _)
+ProfileFileAfter(file, mode, body, appends) ==
+  IF appends = <<>> THEN file
+  ELSE ProfileFileAfter(WriteProfileFile(file, mode, body, appends[1]), mode, body, Tail(appends))
+\* laws: without append the result does not depend on the earlier content; with append nothing of it is lost
+ProfileFileLaws(mode, body, old) ==
+  /\ WriteProfileFile(old, mode, body, FALSE) = WriteProfileFile(NoFile, mode, body, FALSE)
+  /\ old.ex => SubSeq(WriteProfileFile(old, mode, body, TRUE).lines, 1, Len(old.lines)) = old.lines
+  /\ Len(WriteProfileFile(old, mode, body, TRUE).lines) = (IF old.ex THEN Len(old.lines) ELSE 1) + Len(body)
 =============================================================================
